@@ -429,8 +429,22 @@ pub fn eval_plan(w: &CliWorld, cmd: &UCmd, plan: &Plan, known: &KnownFindings) -
 }
 
 pub fn gen_cmd(rng: &mut Rng, w: &CliWorld) -> UCmd {
-  if rng.chance(0.7) {
+  let roll = rng.below(100);
+  if roll < 50 {
     return UCmd { base: vec![s("scan")] };
+  }
+  // rule sets that do not include every project rule (no unused-suppression rule then)
+  let standalone = w.standalone_rule_files();
+  if roll < 62 && !standalone.is_empty() {
+    return UCmd { base: vec![s("scan"), s("-r"), rng.pick(&standalone).clone()] };
+  }
+  if roll < 70 {
+    let ids: Vec<String> = w.all_rules().iter().filter(|r| r.severity.as_deref() != Some("off")).map(|r| r.id.clone()).collect();
+    if !ids.is_empty() {
+      let id = rng.pick(&ids);
+      let piece: String = id.chars().take(rng.range(2, 6)).collect();
+      return UCmd { base: vec![s("scan"), format!("--filter={piece}")] };
+    }
   }
   let langs = w.languages();
   let lang = if langs.is_empty() { s("TypeScript") } else { rng.pick(&langs).clone() };
